@@ -53,7 +53,7 @@ def real_file_props(opt):
     RG = _rg()
     got = []
     orig = RG.split_read_group_table
-    RG.split_read_group_table = lambda table, sample, rc, gc, delim: got.append([table, rc, gc, delim])
+    RG.split_read_group_table = lambda table, sample, rc, gc, delim, chr_ids=None: got.append([table, rc, gc, delim])   # chr_ids: /repo fa8aeb9
     try:
         try:
             RG.prepare_read_groups(_NS(read_group=opt), _NS(file_list=[], read_group_file="unused"))
